@@ -93,7 +93,7 @@ func genCase(t *rapid.T) Case {
 			c.Refuse2 = rapid.IntRange(1, c.Limit-1).Draw(t, "refuse2")
 		}
 	case "inject-body":
-		c.Garbage = rapid.SampledFrom([]int{1, 3, 17, 200, 5000}).Draw(t, "garbage")
+		c.Garbage = rapid.SampledFrom([]int{1, 3, 17, 200, 5000, 4<<20 - 1, 4 << 20, 4 << 20}).Draw(t, "garbage") // the last two: the largest length the receiver accepts
 		c.At = rapid.IntRange(0, c.Frames-1).Draw(t, "at")
 	case "inject-badref":
 		c.Garbage = rapid.IntRange(0, len(badRefs)-1).Draw(t, "variant")
@@ -570,6 +570,11 @@ func TestC14CutEveryOffset(t *testing.T) {
 	}
 	for _, o := range offsets {
 		check(t.Fatalf, Case{Kind: "cut", Frames: len(sizes), Sizes: sizes, Cut: int64(o), Limit: 2, After: 2})
+	}
+	// undecodable frames whose announced length is the largest the receiver accepts (and one byte less): the
+	// body is consumed, the frames behind it are delivered
+	for _, g := range []int{4 << 20, 4<<20 - 1} {
+		check(t.Fatalf, Case{Kind: "inject-body", Frames: 3, Sizes: []int{10, 0, 100}, Limit: 2, After: 2, Garbage: g, At: 1})
 	}
 	vstat.Note(fmt.Sprintf("cut enumeration over a stream of %d frames = %d bytes", len(sizes), total))
 }
